@@ -40,16 +40,31 @@ var hC05Undef = []hC05Tmpl{
 	{id: "metadata-tuple", pre: "!0 = !{}\n!1 = !{!", post: "}\n", defined: "01", digit: true},
 	{id: "metadata-named", pre: "!0 = !{}\n!nm = !{!", post: "}\n", defined: "0", digit: true},
 	{id: "metadata-di-field", pre: "!0 = !DIFile(filename: \"a\", directory: \"b\")\n!1 = !{}\n!5 = !DISubrange(count: !", post: ")\n", defined: "01", digit: true},
+	{id: "blockaddress-declared-func", pre: "declare void @a()\ndefine void @d() {\nb:\n\tret void\n}\n@g = global i8* blockaddress(@", post: ", %b)\n", defined: "d"},                        // @a is only declared: it has no block %b
+	{id: "blockaddress-other-func-label", pre: "define void @f() {\na:\n\tret void\n}\ndefine void @g() {\nb:\n\tret void\n}\n@x = global i8* blockaddress(@f, %", post: ")\n", defined: "a"}, // %b exists, but in @g
+	{id: "blockaddress-operand", pre: "define i8* @f() {\na:\n\t%p = getelementptr i8, i8* blockaddress(@f, %", post: "), i32 0\n\tret i8* %p\n}\n", defined: "a"},
+	{id: "blockaddress-metadata", pre: "define void @f() {\na:\n\tret void\n}\n!0 = !{i8* blockaddress(@f, %", post: ")}\n", defined: "a"},
+	{id: "local-other-func", pre: "define i32 @f(i32 %a) {\n\tret i32 %a\n}\ndefine i32 @g(i32 %b) {\n\tret i32 %", post: "\n}\n", defined: "b"}, // %a exists, but in @f
+	{id: "label-other-func", pre: "define void @f() {\na:\n\tret void\n}\ndefine void @g() {\nb:\n\tbr label %", post: "\n}\n", defined: "b"},
+	{id: "alias-target", pre: "@a = global i32 0\n@x = alias i32, i32* @", post: "\n", defined: "a"},
+	{id: "ifunc-resolver", pre: "declare i32 ()* @a()\n@x = ifunc i32 (), i32 ()* ()* @", post: "\n", defined: "a"},
+	{id: "personality", pre: "declare i32 @a(...)\ndefine void @f() personality i8* bitcast (i32 (...)* @", post: " to i8*) {\n\tret void\n}\n", defined: "a"},
+	{id: "invoke-label", pre: "declare void @g()\ndefine void @f() personality i8* null {\na:\n\tinvoke void @g() to label %", post: " unwind label %b\nb:\n\t%l = landingpad i32 cleanup\n\tret void\n}\n", defined: "ab"},
+	{id: "switch-label", pre: "define void @f(i32 %x) {\na:\n\tswitch i32 %x, label %b [ i32 1, label %", post: " ]\nb:\n\tret void\n}\n", defined: "ab"},
+	{id: "type-in-signature", pre: "%a = type opaque\ndeclare void @f(%", post: "*)\n", defined: "a"},
+	{id: "comdat-func", pre: "$a = comdat any\ndefine void @f() comdat($", post: ") {\n\tret void\n}\n", defined: "a"},
+	{id: "metadata-func-attachment", pre: "define void @f() !dbg !", post: " {\n\tret void\n}\n!0 = distinct !DISubprogram(name: \"f\")\n", defined: "0", digit: true},
+	{id: "metadata-inst-attachment", pre: "define void @f() {\n\tret void, !dbg !", post: "\n}\n!0 = !{}\n!1 = !{}\n", defined: "01", digit: true},
 	{id: "attrgroup", pre: "define void @f() #", post: " {\n\tret void\n}\nattributes #0 = { nounwind }\n", defined: "0", digit: true, accept: true},
 }
 
-var hC05UndefIDs = [...]string{"C05.type.undefined-is-error", "C05.type-alias.undefined-is-error", "C05.global.undefined-is-error", "C05.callee.undefined-is-error", "C05.local.undefined-is-error", "C05.label.undefined-is-error", "C05.phi-pred.undefined-is-error", "C05.comdat.undefined-is-error", "C05.blockaddress-func.undefined-is-error", "C05.blockaddress-block.undefined-is-error", "C05.uselistorder.undefined-is-error", "C05.uselistorder-blockaddress.undefined-is-error", "C05.uselistorder-bb.undefined-is-error", "C05.metadata-attachment.undefined-is-error", "C05.metadata-tuple.undefined-is-error", "C05.metadata-named.undefined-is-error", "C05.metadata-di-field.undefined-is-error", "C05.attrgroup.undefined-is-materialised"}
-var hC05DefIDs = [...]string{"C05.type.defined-is-accepted", "C05.type-alias.defined-is-accepted", "C05.global.defined-is-accepted", "C05.callee.defined-is-accepted", "C05.local.defined-is-accepted", "C05.label.defined-is-accepted", "C05.phi-pred.defined-is-accepted", "C05.comdat.defined-is-accepted", "C05.blockaddress-func.defined-is-accepted", "C05.blockaddress-block.defined-is-accepted", "C05.uselistorder.defined-is-accepted", "C05.uselistorder-blockaddress.defined-is-accepted", "C05.uselistorder-bb.defined-is-accepted", "C05.metadata-attachment.defined-is-accepted", "C05.metadata-tuple.defined-is-accepted", "C05.metadata-named.defined-is-accepted", "C05.metadata-di-field.defined-is-accepted", "C05.attrgroup.defined-is-accepted"}
+var hC05UndefIDs = [...]string{"C05.type.undefined-is-error", "C05.type-alias.undefined-is-error", "C05.global.undefined-is-error", "C05.callee.undefined-is-error", "C05.local.undefined-is-error", "C05.label.undefined-is-error", "C05.phi-pred.undefined-is-error", "C05.comdat.undefined-is-error", "C05.blockaddress-func.undefined-is-error", "C05.blockaddress-block.undefined-is-error", "C05.uselistorder.undefined-is-error", "C05.uselistorder-blockaddress.undefined-is-error", "C05.uselistorder-bb.undefined-is-error", "C05.metadata-attachment.undefined-is-error", "C05.metadata-tuple.undefined-is-error", "C05.metadata-named.undefined-is-error", "C05.metadata-di-field.undefined-is-error", "C05.blockaddress-declared-func.undefined-is-error", "C05.blockaddress-other-func-label.undefined-is-error", "C05.blockaddress-operand.undefined-is-error", "C05.blockaddress-metadata.undefined-is-error", "C05.local-other-func.undefined-is-error", "C05.label-other-func.undefined-is-error", "C05.alias-target.undefined-is-error", "C05.ifunc-resolver.undefined-is-error", "C05.personality.undefined-is-error", "C05.invoke-label.undefined-is-error", "C05.switch-label.undefined-is-error", "C05.type-in-signature.undefined-is-error", "C05.comdat-func.undefined-is-error", "C05.metadata-func-attachment.undefined-is-error", "C05.metadata-inst-attachment.undefined-is-error", "C05.attrgroup.undefined-is-materialised"}
+var hC05DefIDs = [...]string{"C05.type.defined-is-accepted", "C05.type-alias.defined-is-accepted", "C05.global.defined-is-accepted", "C05.callee.defined-is-accepted", "C05.local.defined-is-accepted", "C05.label.defined-is-accepted", "C05.phi-pred.defined-is-accepted", "C05.comdat.defined-is-accepted", "C05.blockaddress-func.defined-is-accepted", "C05.blockaddress-block.defined-is-accepted", "C05.uselistorder.defined-is-accepted", "C05.uselistorder-blockaddress.defined-is-accepted", "C05.uselistorder-bb.defined-is-accepted", "C05.metadata-attachment.defined-is-accepted", "C05.metadata-tuple.defined-is-accepted", "C05.metadata-named.defined-is-accepted", "C05.metadata-di-field.defined-is-accepted", "C05.blockaddress-declared-func.defined-is-accepted", "C05.blockaddress-other-func-label.defined-is-accepted", "C05.blockaddress-operand.defined-is-accepted", "C05.blockaddress-metadata.defined-is-accepted", "C05.local-other-func.defined-is-accepted", "C05.label-other-func.defined-is-accepted", "C05.alias-target.defined-is-accepted", "C05.ifunc-resolver.defined-is-accepted", "C05.personality.defined-is-accepted", "C05.invoke-label.defined-is-accepted", "C05.switch-label.defined-is-accepted", "C05.type-in-signature.defined-is-accepted", "C05.comdat-func.defined-is-accepted", "C05.metadata-func-attachment.defined-is-accepted", "C05.metadata-inst-attachment.defined-is-accepted", "C05.attrgroup.defined-is-accepted"}
 
 // VfC05_Undefined
 //
 //vf:unwind 300
-//vf:shards 18
+//vf:shards 16
 func VfC05_Undefined() {
 	k := vfChoice("template", len(hC05Undef))
 	t := hC05Undef[k]
